@@ -12,51 +12,8 @@ import (
 
 	"pgregory.net/rapid"
 	"verifstat"
+	"verifstat/pcgen"
 )
-
-var verifValAlphabet = []rune{' ', '\t', '\\', '-', 'a', 'L', '/', '.', '=', ',', 'é', '0'}
-
-func verifFlag(t *rapid.T) string {
-	letter := rapid.SampledFrom([]rune("ILlDWfO")).Draw(t, "letter")
-	n := rapid.IntRange(0, 6).Draw(t, "vlen")
-	rs := make([]rune, 0, n)
-	for i := 0; i < n; i++ {
-		rs = append(rs, rapid.SampledFrom(verifValAlphabet).Draw(t, "vr"))
-	}
-	for len(rs) > 0 && rs[0] == '-' {
-		rs = rs[1:]
-	}
-	for len(rs) > 0 && (rs[len(rs)-1] == ' ' || rs[len(rs)-1] == '\t' || rs[len(rs)-1] == '\\') {
-		rs = rs[:len(rs)-1]
-	}
-	return "-" + string(letter) + string(rs)
-}
-
-func verifFlags(t *rapid.T, label string) []string {
-	n := rapid.IntRange(0, 3).Draw(t, label)
-	var fs []string
-	for i := 0; i < n; i++ {
-		fs = append(fs, verifFlag(t))
-	}
-	return fs
-}
-
-func verifRender(flags []string) string {
-	var b strings.Builder
-	for i, f := range flags {
-		if i > 0 {
-			b.WriteString("  ")
-		}
-		b.WriteString(f[:2])
-		for _, r := range f[2:] {
-			if r == ' ' || r == '\t' {
-				b.WriteByte('\\')
-			}
-			b.WriteRune(r)
-		}
-	}
-	return b.String()
-}
 
 func TestVerifC17MergeFlags(t *testing.T) {
 	c := verifstat.For("C17")
@@ -72,11 +29,11 @@ func TestVerifC17MergeFlags(t *testing.T) {
 		}(k, old, had)
 	}
 	rapid.Check(t, func(t *rapid.T) {
-		eCC, eC, eLD := verifFlags(t, "eCC"), verifFlags(t, "eC"), verifFlags(t, "eLD")
-		cCC, cC, cLD := verifFlags(t, "cCC"), verifFlags(t, "cC"), verifFlags(t, "cLD")
-		os.Setenv("CCFLAGS", verifRender(eCC))
-		os.Setenv("CFLAGS", verifRender(eC))
-		os.Setenv("LDFLAGS", verifRender(eLD))
+		eCC, eC, eLD := pcgen.Flags(t, 3), pcgen.Flags(t, 3), pcgen.Flags(t, 3)
+		cCC, cC, cLD := pcgen.Flags(t, 3), pcgen.Flags(t, 3), pcgen.Flags(t, 3)
+		os.Setenv("CCFLAGS", pcgen.Render(t, eCC, false))
+		os.Setenv("CFLAGS", pcgen.Render(t, eC, false))
+		os.Setenv("LDFLAGS", pcgen.Render(t, eLD, false))
 		cmd := New("clang", NewConfig("clang", cCC, cC, cLD, ""))
 		wantC := append(append(append(append([]string{}, eCC...), eC...), cCC...), cC...)
 		wantL := append(append(append([]string{}, eCC...), eLD...), cLD...)
